@@ -271,6 +271,14 @@ def _com_particle(rng):
     canon[tuple(face)] += 4 * w
     nz = np.argwhere(canon > 0)
     lo, hi = nz.min(0), nz.max(0) + 1
+    if rng.random() < 0.6:
+        # negative density (as in filtered / background-subtracted maps) in empty voxels of the bounding box next to the tail:
+        # it is no mass - the centre of mass of the positive density, the tool's reference point, stays where it is, while a
+        # signed mean would move by more than a voxel
+        empty = [tuple(int(v) for v in e) for e in np.argwhere(canon == 0)
+                 if all(l <= v < h for v, l, h in zip(e, lo, hi)) and (e[axis] - c) * sign >= 2]
+        for e in [empty[int(j)] for j in rng.permutation(len(empty))[:6]]:
+            canon[e] = -int(rng.integers(64, 129)) / 16.0
     return canon, [int(x) for x in lo], [int(x) for x in hi]
 
 
